@@ -28,7 +28,19 @@
 //	inject    every mapping node of every path document + 1 undeclared key
 //	alias     every mapping node + the Go field name / yaml default name of
 //	          each of its fields when that is not itself a declared key
-//	noaction  every rule list with an entry `{}`, `null`, `{<action>: null}`
+//	noaction  every union ("rule") list — passes, builders, options, and the
+//	          pipeline's inputs and output.languages — with an entry that
+//	          names no member: `{}`, `null`, `{<member>: null}` for every
+//	          member (`- typescript:`), an entry setting only a non-member
+//	          key (`{if: …}`); each form alone, twice, and BEFORE / AFTER /
+//	          BETWEEN a well-formed entry of every member kind; for pass and
+//	          veneer files also as the 1st / 2nd file of a batch of two
+//
+// Undeclared keys are likewise injected into the 2nd item of every list a path
+// goes through (after a well-formed sibling) and into the 1st / 2nd file of a
+// batch. "Loading" a pipeline is PipelineFromFile followed by the resolution of
+// its unions (OutputLanguages, Input.InterpolateParameters), which is what
+// Pipeline.Run does before anything else.
 //
 // Oracle clauses (each is a sentence of the property statement):
 //
@@ -48,10 +60,9 @@
 //   - keys are demanded to be rejected only at mapping nodes that are a Go
 //     struct on the loader side; at free-form positions (maps, `any`) only
 //     agreement between loader and schema is demanded;
-//   - "rule entries" are the items of `passes`, `builders` and `options`
-//     (the three rule unions the statement's mechanism lists); an empty
-//     `inputs`/`languages` item of a pipeline is not a rule entry and is not
-//     judged; an entry with two actions is outside the statement; a rule with an
+//   - "rule entries" are the items of the five unions of the configuration
+//     language: `passes`, `builders`, `options`, `inputs`, `output.languages`;
+//     an entry with two members is outside the statement; a rule with an
 //     action but an empty selector is a value-level matter;
 //   - schema-side verdicts on no-action entries are not compared (`{}` has no
 //     keys);
@@ -396,6 +407,10 @@ func (p pnode) hasKey(k string) bool {
 	}
 	return false
 }
+
+// isMember: k is a mapping-valued key of the node (a member of a union entry).
+func (p pnode) isMember(k string) bool { return p.hasKey(k) && p.child(k).kind() == kObj }
+
 func (p pnode) keys() []string {
 	set := map[string]bool{}
 	for _, k := range p.s.keys() {
@@ -664,6 +679,10 @@ func defaultAction(def string) []any {
 		return []any{"omit", newOMap("by_name", "Obj")}
 	case "YamlOptionRule":
 		return []any{"omit", newOMap("by_name", "Obj.opt")}
+	case "CodegenInput":
+		return []any{"jsonschema", newOMap()}
+	case "CodegenOutputLanguage":
+		return []any{"jsonschema", newOMap()}
 	}
 	return nil
 }
@@ -767,7 +786,9 @@ func minimal(n pnode, hint string, atEnd bool, next string) any {
 		for i := 0; i+1 < len(kv); i += 2 {
 			m.Set(kv[i].(string), kv[i+1])
 		}
-		if atEnd {
+		if atEnd || !n.isMember(next) {
+			// the path ends at the union entry, or goes on through a key
+			// that is not one of its members (`if:` of an input)
 			kv = defaultAction(d)
 			for i := 0; i+1 < len(kv); i += 2 {
 				m.Set(kv[i].(string), kv[i+1])
@@ -800,7 +821,12 @@ func minimal(n pnode, hint string, atEnd bool, next string) any {
 }
 
 // build returns the minimal document reaching p and its end value.
-func build(p *kpath) (root any, end any) {
+func build(p *kpath) (root any, end any) { return buildSibling(p, -1) }
+
+// buildSibling: as build, and the list entered at step dup (if >= 0) first
+// gets a well-formed minimal sibling item, so that the path goes through the
+// second item of that list.
+func buildSibling(p *kpath, dup int) (root any, end any) {
 	nextKey := func(i int) string { // key step following node i (through list/map steps: none)
 		if i < len(p.steps) && p.steps[i].T == 'k' {
 			return p.steps[i].K
@@ -822,7 +848,12 @@ func build(p *kpath) (root any, end any) {
 		case 'i':
 			cv = minimal(child, hint, last, nextKey(i+1))
 			l := cur.(*List)
-			if len(l.items) > 0 { // a list that must not be empty was seeded with one item: the path goes through it
+			if i == dup {
+				if len(l.items) == 0 {
+					l.items = append(l.items, minimal(child, hint, true, ""))
+				}
+				l.items = append(l.items, cv)
+			} else if len(l.items) > 0 { // a list that must not be empty was seeded with one item: the path goes through it
 				l.items[len(l.items)-1] = cv
 			} else {
 				l.items = append(l.items, cv)
@@ -847,8 +878,8 @@ func build(p *kpath) (root any, end any) {
 type fileKind struct {
 	Name      string
 	GoRoot    reflect.Type
-	Load      func(path string) error
-	RuleLists []string // keys of the root whose items are rule entries
+	Load      func(paths []string) error
+	RuleLists []string // paths of the lists whose items are union ("rule") entries
 
 	schemaPath string
 	schema     *jsonschema.Schema
@@ -860,16 +891,33 @@ type fileKind struct {
 
 func fileKinds() []*fileKind {
 	return []*fileKind{
-		{Name: "pipeline", GoRoot: reflect.TypeOf(codegen.Pipeline{}), Load: func(p string) error {
-			_, err := codegen.PipelineFromFile(p)
+		// Loading a pipeline = decoding it and resolving its two unions, the
+		// first things `cog generate` / `cog inspect` do (Pipeline.Run): the
+		// language entries (OutputLanguages) and the source of every input
+		// (Input.InterpolateParameters resolves it without any I/O).
+		{Name: "pipeline", GoRoot: reflect.TypeOf(codegen.Pipeline{}), RuleLists: []string{"inputs", "output.languages"}, Load: func(p []string) error {
+			for _, f := range p {
+				pipeline, err := codegen.PipelineFromFile(f)
+				if err != nil {
+					return err
+				}
+				if _, err := pipeline.OutputLanguages(); err != nil {
+					return err
+				}
+				for _, input := range pipeline.Inputs {
+					if err := input.InterpolateParameters(func(s string) string { return s }); err != nil {
+						return err
+					}
+				}
+			}
+			return nil
+		}},
+		{Name: "compiler_passes", GoRoot: reflect.TypeOf(cogyaml.Compiler{}), RuleLists: []string{"passes"}, Load: func(p []string) error {
+			_, err := cogyaml.NewCompilerLoader().PassesFrom(p)
 			return err
 		}},
-		{Name: "compiler_passes", GoRoot: reflect.TypeOf(cogyaml.Compiler{}), RuleLists: []string{"passes"}, Load: func(p string) error {
-			_, err := cogyaml.NewCompilerLoader().PassesFrom([]string{p})
-			return err
-		}},
-		{Name: "veneers", GoRoot: reflect.TypeOf(cogyaml.Veneers{}), RuleLists: []string{"builders", "options"}, Load: func(p string) error {
-			_, err := cogyaml.NewVeneersLoader().RewriterFrom([]string{p}, rewrite.Config{})
+		{Name: "veneers", GoRoot: reflect.TypeOf(cogyaml.Veneers{}), RuleLists: []string{"builders", "options"}, Load: func(p []string) error {
+			_, err := cogyaml.NewVeneersLoader().RewriterFrom(p, rewrite.Config{})
 			return err
 		}},
 	}
@@ -921,15 +969,19 @@ func normErr(s string) string {
 }
 
 // runLoader writes the document and executes the real loader on the file.
-func runLoader(fk *fileKind, text string) (accepted bool, class string, msg string) {
-	path := filepath.Join(scratch, fmt.Sprintf("%d.yaml", fileSeq.Add(1)))
-	if err := os.WriteFile(path, []byte(text), 0o600); err != nil {
-		fatalf("scratch write: %v", err)
+func runLoader(fk *fileKind, texts ...string) (accepted bool, class string, msg string) {
+	var paths []string
+	for _, text := range texts {
+		path := filepath.Join(scratch, fmt.Sprintf("%d.yaml", fileSeq.Add(1)))
+		if err := os.WriteFile(path, []byte(text), 0o600); err != nil {
+			fatalf("scratch write: %v", err)
+		}
+		defer os.Remove(path)
+		paths = append(paths, path)
 	}
-	defer os.Remove(path)
 	loads.Add(1)
 	var err error
-	if p := vx.Catch(func() { err = fk.Load(path) }); p != nil {
+	if p := vx.Catch(func() { err = fk.Load(paths) }); p != nil {
 		return false, "panic", normErr(fmt.Sprint(p))
 	}
 	if err == nil {
@@ -941,7 +993,7 @@ func runLoader(fk *fileKind, text string) (accepted bool, class string, msg stri
 		class = "unknown-field"
 	case strings.Contains(msg, "cannot unmarshal"), strings.Contains(msg, "cannot construct"):
 		class = "type"
-	case strings.Contains(msg, "empty rule"), strings.Contains(msg, "empty compiler pass"):
+	case strings.Contains(msg, "empty rule"), strings.Contains(msg, "empty compiler pass"), strings.Contains(msg, "empty input"), strings.Contains(msg, "empty language"):
 		class = "no-action"
 	default:
 		class = "value"
@@ -1029,6 +1081,9 @@ type docCase struct {
 	YAML   string `json:"yaml"`
 	Base   string `json:"base_yaml,omitempty"`
 	Key    string `json:"key,omitempty"` // injected key / entry form
+	// valid files of the same kind loaded in the same batch, before / after the document
+	Before string `json:"file_loaded_before,omitempty"`
+	After  string `json:"file_loaded_after,omitempty"`
 	// static facts about the node judged
 	LoaderClosed bool `json:"loader_closed"`
 	SchemaClosed bool `json:"schema_closed"`
@@ -1038,7 +1093,8 @@ type docCase struct {
 	fk     *fileKind
 	p      *kpath
 	size   int
-	kindAt string // "<file kind>:<route>:<position>"
+	kindAt string   // "<file kind>:<route>:<position>"
+	needOK []string // path documents that must load for this case to be judged
 
 	L, S           bool
 	lclass, sclass string
@@ -1112,6 +1168,43 @@ func buildCases(fks []*fileKind) []*docCase {
 					c.size = len(p.steps)*8 + iv.rank
 					out = append(out, c)
 				}
+				// the same undeclared key in the SECOND item of each list the path goes through
+				for j, st := range p.steps {
+					if st.T != 'i' {
+						continue
+					}
+					lp := (&kpath{steps: p.steps[:j]}).String()
+					d, end := buildSibling(p, j)
+					end.(*OMap).Set(unknownKey, 1)
+					name := unknownKey + " (2nd item of " + lp + ")"
+					c := common("inject", fmt.Sprintf("inject:%s:%s+%s", fk.Name, ps, name))
+					c.YAML, c.Base, c.Key = toYAML(d), baseY, name
+					c.kindAt = fk.Name + ":" + p.route() + ":" + pos
+					c.size = len(p.steps)*8 + 7
+					out = append(out, c)
+				}
+				// ... and in a file loaded in the same batch as a valid file (veneers directories, lists of pass files)
+				if fk.Name != "pipeline" {
+					valid, _ := build(fk.paths[0])
+					for _, second := range []bool{true, false} {
+						d, end := build(p)
+						end.(*OMap).Set(unknownKey, 1)
+						name := unknownKey + " (1st file of a batch of 2)"
+						if second {
+							name = unknownKey + " (2nd file of a batch of 2)"
+						}
+						c := common("inject", fmt.Sprintf("inject:%s:%s+%s", fk.Name, ps, name))
+						c.YAML, c.Base, c.Key = toYAML(d), baseY, name
+						if second {
+							c.Before = toYAML(valid)
+						} else {
+							c.After = toYAML(valid)
+						}
+						c.kindAt = fk.Name + ":" + p.route() + ":" + pos
+						c.size = len(p.steps)*8 + 7
+						out = append(out, c)
+					}
+				}
 				// aliases: spellings a user coming from the Go source / JSON might try
 				if e.g != nil && e.g.Kind == kObj {
 					seen := map[string]bool{}
@@ -1134,34 +1227,67 @@ func buildCases(fks []*fileKind) []*docCase {
 				}
 			}
 		}
-		// rule entries with no action
-		for _, list := range fk.RuleLists {
-			entry := fk.root.child(list).elem()
-			forms := []struct {
-				name string
-				v    any
-			}{{"{}", newOMap()}, {"null", nil}}
-			for _, k := range entry.keys() {
-				forms = append(forms, struct {
-					name string
-					v    any
-				}{"{" + k + ": null}", newOMap(k, nil)})
-			}
-			rootPath := fk.paths[0]
-			base, _ := build(rootPath)
-			baseY := toYAML(base)
-			for _, f := range forms {
-				d, _ := build(rootPath)
-				d.(*OMap).Set(list, &List{items: []any{f.v}})
-				fam := "noaction"
-				if strings.Contains(f.name, ": null") {
-					fam = "nullaction"
-				} else if f.name == "null" {
-					fam = "nullentry"
+		// union ("rule") entries with no recognised member, alone and among well-formed siblings
+		for _, lp := range fk.RuleLists {
+			var listPath *kpath
+			for _, p := range fk.paths {
+				if p.String() == lp {
+					listPath = p
 				}
-				out = append(out, &docCase{Family: fam, FK: fk.Name, ID: fmt.Sprintf("%s:%s:%s[] = %s", fam, fk.Name, list, f.name),
-					Path: list + "[]", YAML: toYAML(d), Base: baseY, Key: f.name, fk: fk, size: len(f.name),
-					kindAt: fk.Name + ":" + list + "[]", DeclS: true, DeclG: true})
+			}
+			if listPath == nil || listPath.end().kind() != kArr {
+				continue // the list itself is gone: the path family reports that
+			}
+			entry := listPath.end().elem()
+			entryDef := entry.def()
+			type form struct {
+				fam, name string
+				v         func() any
+			}
+			forms := []form{{"noaction", "{}", func() any { return newOMap() }}, {"nullentry", "null", func() any { return nil }}}
+			var members []string
+			for _, k := range entry.keys() {
+				k := k
+				if entry.child(k).kind() == kObj {
+					members = append(members, k)
+					forms = append(forms, form{"nullaction", "{" + k + ": null}", func() any { return newOMap(k, nil) }})
+				} else { // an entry that only sets a key that is not a member of the union (`if:`)
+					forms = append(forms, form{"noaction", "{" + k + ": …}", func() any { return newOMap(k, minimal(entry.child(k), entryDef+"."+k, true, "")) }})
+				}
+			}
+			wellFormed := func(k string) any { return newOMap(k, minimal(entry.child(k), entryDef+"."+k, true, "")) }
+			base, _ := build(listPath)
+			baseY := toYAML(base)
+			add := func(f form, shape string, rank int, need []string, items func() []any, before, after string) {
+				d, end := build(listPath)
+				end.(*List).items = items()
+				id := fmt.Sprintf("%s:%s:%s = %s", f.fam, fk.Name, lp, shape)
+				out = append(out, &docCase{Family: f.fam, FK: fk.Name, ID: id, Path: lp + "[]", YAML: toYAML(d), Base: baseY, Key: f.name,
+					Before: before, After: after, fk: fk, size: rank*1000 + len(shape), needOK: append([]string{lp}, need...),
+					kindAt: fk.Name + ":" + lp + "[]", DeclS: true, DeclG: true})
+			}
+			for _, f := range forms {
+				f := f
+				add(f, "["+f.name+"]", 0, nil, func() []any { return []any{f.v()} }, "", "")
+				add(f, "["+f.name+", "+f.name+"]", 3, nil, func() []any { return []any{f.v(), f.v()} }, "", "")
+				for _, k := range members {
+					k := k
+					need := []string{lp + "[]." + k}
+					add(f, "[{"+k+"}, "+f.name+"]", 1, need, func() []any { return []any{wellFormed(k), f.v()} }, "", "")
+					add(f, "["+f.name+", {"+k+"}]", 1, need, func() []any { return []any{f.v(), wellFormed(k)} }, "", "")
+				}
+				if len(members) > 0 {
+					k := members[0]
+					need := []string{lp + "[]." + k}
+					add(f, "[{"+k+"}, "+f.name+", {"+k+"}]", 2, need, func() []any { return []any{wellFormed(k), f.v(), wellFormed(k)} }, "", "")
+					if fk.Name != "pipeline" { // among the files of one batch
+						v, vend := build(listPath)
+						vend.(*List).items = []any{wellFormed(k)}
+						valid := toYAML(v)
+						add(f, "["+f.name+"] (2nd file of a batch of 2)", 2, need, func() []any { return []any{f.v()} }, valid, "")
+						add(f, "["+f.name+"] (1st file of a batch of 2)", 2, need, func() []any { return []any{f.v()} }, "", valid)
+					}
+				}
 			}
 		}
 	}
@@ -1241,7 +1367,15 @@ func setEnd(root any, p *kpath, v any) {
 }
 
 func execute(c *docCase) {
-	c.L, c.lclass, c.lmsg = runLoader(c.fk, c.YAML)
+	var batch []string
+	if c.Before != "" {
+		batch = append(batch, c.Before)
+	}
+	batch = append(batch, c.YAML)
+	if c.After != "" {
+		batch = append(batch, c.After)
+	}
+	c.L, c.lclass, c.lmsg = runLoader(c.fk, batch...)
 	c.S, c.sclass, c.smsg, c.asJSON = runSchema(c.fk, c.YAML)
 }
 
@@ -1345,7 +1479,8 @@ func judgeNoAction(c *docCase) []verdict {
 		if c.Family == "nullentry" {
 			return []verdict{{clause, fmt.Sprintf("%s file: an empty rule entry (`- null`, i.e. a bare `-`) in %s has no action; the loader silently drops it instead of rejecting it like `- {}` (published schema accepts it: %v)", c.FK, c.Path, c.S)}}
 		}
-		return []verdict{{clause, fmt.Sprintf("%s file: rule entry %s in %s has no action but the loader accepts it", c.FK, c.Key, c.Path)}}
+		shape := c.ID[strings.Index(c.ID, " = ")+3:]
+		return []verdict{{clause, fmt.Sprintf("%s file: entry %s names no member of the union %s (list written %s) but the configuration loads: the entry is silently ignored", c.FK, c.Key, c.Path, shape)}}
 	}
 	return nil
 }
@@ -1534,7 +1669,13 @@ func run(r *vx.Run) int {
 					fail(c, v)
 				}
 			case "noaction", "nullaction", "nullentry":
-				if !ok[c.FK+":<root>"].loaderOK {
+				blocked := false
+				for _, need := range c.needOK {
+					if !ok[c.FK+":"+need].loaderOK {
+						blocked = true
+					}
+				}
+				if blocked {
 					blockedLoader++
 					continue
 				}
@@ -1690,7 +1831,8 @@ func run(r *vx.Run) int {
 		"recursive definitions (ast.Type, option-call parameters, assignment values) are unfolded up to the stated bound per definition on a path; nodes at the bound are still instantiated and injected into but not expanded",
 		"only key-level acceptance is compared; value-level loader checks (reference formats, missing selector, missing package) are satisfied by the templates and never counted as key rejections",
 		"PipelineFromFile only decodes: files and directories named by a pipeline are not opened at load time, so no existence checks are involved",
-		"rule entries are the items of passes/builders/options; inputs[] and output.languages[] unions are resolved after loading and are outside the statement",
+		"rule entries are the items of passes/builders/options and of the pipeline's inputs/output.languages; loading a pipeline includes resolving these two unions (OutputLanguages, Input.InterpolateParameters: no I/O)",
+		"no-member entries are enumerated alone, doubled, and before/after/between a well-formed sibling of every member kind; undeclared keys also in the 2nd item of every list on the path and in either file of a batch of two",
 		"one witness per failure kind (kind = clause @ file kind:route:definition); total failing cases per kind are in failing_cases_per_kind",
 	})
 	return 0
